@@ -376,7 +376,9 @@ class Interp:
         for i in range(size):
             c = cells.get(off + i)
             if c is not None:
-                if i + c[0] > size: self.split(o, off + i)
+                if i + c[0] > size:
+                    try: self.split(o, off + i)
+                    except Unsupported as ex: raise Unsupported(str(ex) + ' by a store of %d bytes at %d: %r' % (size, off, v))
                 cells.pop(off + i, None)
         cells[off] = (size, v)
     def split(self, o, off):
@@ -385,7 +387,7 @@ class Interp:
         if isinstance(v, tuple):
             if v == NULL: v = 0
             elif v[0] == 'int': v = v[1]
-            else: raise Unsupported('partial overwrite of a pointer')
+            else: v = self.addr(v)     # the remaining bytes keep the numeric address (provenance is lost, as on the machine)
         if isinstance(v, (SV, FB)):
             if not z3.is_bv(v.e): raise Unsupported('partial overwrite of a symbolic non-bitvector')
             for i in range(c[0]): o.cells[off + i] = (1, sv(z3.Extract(8 * i + 7, 8 * i, v.e)))
